@@ -415,9 +415,23 @@ fn classify_error(
     format!("Other:{}", msg.replace(['\t', '\n'], " "))
 }
 
-fn results_s(sets: &[GraphColoredVertices], order: &[BddVariable]) -> String {
+fn results_s(sets: &[GraphColoredVertices], order: &[BddVariable], expect_vars: u16, canonical: Option<&SymbolicAsyncGraph>) -> String {
     sets.iter()
         .map(|s| {
+            if s.as_bdd().num_vars() != expect_vars {
+                // not expressed in the expected symbolic encoding
+                return "ENCODING".to_string();
+            }
+            if let Some(g0) = canonical {
+                // must be usable together with sets of a graph built directly from the network
+                let ok = catch_unwind(AssertUnwindSafe(|| {
+                    let u = g0.mk_unit_colored_vertices();
+                    s.intersect(&u).as_bdd() == s.as_bdd() || !s.is_subset(&u)
+                }));
+                if !matches!(ok, Ok(true)) {
+                    return "ENCODING".to_string();
+                }
+            }
             if depends_only_on(s.as_bdd(), order) {
                 bits_of(s.as_bdd(), order)
             } else {
@@ -596,7 +610,15 @@ fn run_eval(fields: &[&str], cases: &mut impl Write, out: &mut impl Write) {
             }
         }));
         let ans = match r {
-            Ok(Ok(sets)) => format!("OK {}", results_s(&sets, &order)),
+            Ok(Ok(sets)) => {
+                let canon_graph = if sanitize { SymbolicAsyncGraph::new(&w.bn).ok() } else { None };
+                let expect_vars = if sanitize {
+                    graph.symbolic_context().as_canonical_context().bdd_variable_set().num_vars()
+                } else {
+                    graph.symbolic_context().bdd_variable_set().num_vars()
+                };
+                format!("OK {}", results_s(&sets, &order, expect_vars, canon_graph.as_ref()))
+            }
             Ok(Err(m)) => format!(
                 "ERR {}",
                 classify_error(
